@@ -51,6 +51,12 @@ type connSpec struct {
 	// earlier one has sent all its frames - sequential reuse of a 4-tuple (or of one that
 	// differs in a single field) after a completed connection.
 	After int `json:"after,omitempty"`
+	// Trailer: link-layer bytes behind the IP datagram of every frame of this client.
+	// -1: frames shorter than the Ethernet minimum of 60 bytes are padded to it (what a
+	// client on a real Ethernet sends: bare ACKs, FINs and segments of 1..5 bytes),
+	// k > 0: k trailer bytes, 0: frames end with the datagram. The trailer is not part of
+	// the segment: acknowledgements and the event's payload count the real bytes only.
+	Trailer int `json:"trailer,omitempty"`
 }
 
 type scenario struct {
@@ -213,6 +219,18 @@ func (r *runner) fail(format string, a ...interface{}) error {
 
 // frameOf builds the client's frame for step i of c with the client's current view.
 func (r *runner) frameOf(c *connRun, st step) ([]byte, string) {
+	f, what := r.rawFrameOf(c, st)
+	if c.spec.Trailer != 0 {
+		g := cl.Trailer(f, c.spec.Trailer, byte(c.sent)+0x41)
+		if len(g) != len(f) {
+			what += fmt.Sprintf(" +%d trailer bytes", len(g)-len(f))
+		}
+		f = g
+	}
+	return f, what
+}
+
+func (r *runner) rawFrameOf(c *connRun, st step) ([]byte, string) {
 	f := cl.TCPFields{Sport: c.spec.Sport, Dport: c.spec.Dport, DataOff: -1, Window: 64240}
 	switch st.kind {
 	case stSYN:
@@ -869,6 +887,9 @@ func genConn(rt *rapid.T, idx int, taken map[string]bool, forced *connSpec) conn
 		c.FinOnLast = rapid.IntRange(0, 3).Draw(rt, "fin-on-last") == 0
 	}
 	c.AckServerFin = rapid.Bool().Draw(rt, "ack-server-fin")
+	// link-layer framing: exact, padded to the Ethernet minimum, or a trailer of a
+	// boundary-biased length (1, 2, what pads a bare ACK to 60 and one less / more, longer)
+	c.Trailer = rapid.SampledFrom([]int{0, 0, 0, -1, -1, -1, 1, 2, 5, 6, 7, 46, 300}).Draw(rt, "trailer")
 	return c
 }
 
@@ -981,7 +1002,7 @@ func fingerprint(sc scenario) (label, fp string) {
 	return label, fmt.Sprintf("%d|%s", len(sc.Conns), strings.Join(parts, ","))
 }
 
-const ruleText = "1..4 simultaneous connections to a hooked canary (InjectFrame/DrainTx in a child): client ISN from {0,1,2^31-1,2^31,2^32-2,2^32-1}, just below the wrap, or random; ports from an alphabet with the decoded ports 23/80/443/445/1433/6379/9200 (protocol-conformant first flights: telnet negotiation, HTTP GET/POST, TLS ClientHello, SMB2 negotiate, TDS prelogin, RESP) and undecoded ports (arbitrary bytes), mirrored / equal / shared port pairs of one peer; streams of 0..4000 bytes in 1..8 in-order segments of odd and even length, PSH placement, FIN alone or on the last segment, client acknowledging the listener's FIN or not; rapid-drawn frame interleavings plus exhaustive interleavings of short scripts. " +
+const ruleText = "1..4 simultaneous connections to a hooked canary (InjectFrame/DrainTx in a child): client ISN from {0,1,2^31-1,2^31,2^32-2,2^32-1}, just below the wrap, or random; ports from an alphabet with the decoded ports 23/80/443/445/1433/6379/9200 (protocol-conformant first flights: telnet negotiation, HTTP GET/POST, TLS ClientHello, SMB2 negotiate, TDS prelogin, RESP) and undecoded ports (arbitrary bytes), mirrored / equal / shared port pairs of one peer; streams of 0..4000 bytes in 1..8 in-order segments of odd and even length, PSH placement, FIN alone or on the last segment, client acknowledging the listener's FIN or not; per connection the client's frames end with the IP datagram, are padded to the 60-byte Ethernet minimum (bare ACKs, FINs, segments of 1..5 bytes) or carry a link-layer trailer of 1/2/5/6/7/46/300 bytes, which is not part of the segment; rapid-drawn frame interleavings plus exhaustive interleavings of short scripts. " +
 	"Oracle: reference client + independent decoder/RFC 1071 verifier: SYN-ACK acks ISN+1, every data segment acked with exactly ISN+1+bytes (mod 2^32), FIN acked, every emitted frame addressed to the right client MAC/IP/port from the probed address/port with valid IPv4 and TCP checksums, one event per connection with the client's addresses/ports whose payload (if any) is a prefix of the stream containing the first pushed segment. non-trivial = a connection completes the handshake and sends >= 1 data segment; distinct by (#connections, ISN class, segment count, length parities, FIN placement, port pair)"
 
 func TestScenarios(t *testing.T) {
@@ -1013,6 +1034,14 @@ func TestScenarios(t *testing.T) {
 		for _, c := range sc.Conns {
 			r.Label(fmt.Sprintf("dport/%d", c.Dport), 1)
 			r.Label("isn/"+isnClass(c.ISN), 1)
+			switch {
+			case c.Trailer < 0:
+				r.Label("framing/padded-to-60", 1)
+			case c.Trailer > 0:
+				r.Label("framing/trailer", 1)
+			default:
+				r.Label("framing/exact", 1)
+			}
 		}
 		verr, infra := check(r, l, h, sc)
 		if infra != nil {
@@ -1057,6 +1086,7 @@ func TestInterleavings(t *testing.T) {
 		}
 		return c
 	}
+	framed := func(c connSpec, trailer int) connSpec { c.Trailer = trailer; return c }
 	type pairing struct {
 		name string
 		a, b connSpec
@@ -1068,6 +1098,8 @@ func TestInterleavings(t *testing.T) {
 		{"equal-ports-vs-other", mk(0, 8080, 8080, 1, "equal", false), mk(0, 1000, 8080, 99, "other!", false)},
 		{"shared-source-port", mk(0, 1000, 8080, 5, "one", false), mk(0, 1000, 1000, 6, "two2", false)},
 		{"fin-with-data", mk(2, 40000, 8080, 1<<32-3, "fin+data", true), mk(3, 40000, 6379, 3, "*1\r\n$4\r\nPING\r\n", true)},
+		{"padded-to-60-vs-exact", framed(mk(0, 1000, 8080, 1<<32-2, "abc", false), -1), mk(1, 1000, 8080, 9, "defgh", false)},
+		{"trailers", framed(mk(2, 1002, 8080, 1<<31-1, "x", true), 6), framed(mk(2, 1003, 8080, 4, "four", false), 1)},
 	}
 	si, sn := r.Shard()
 	var count int64
